@@ -138,7 +138,10 @@ def run(chk):
     cases = [("nofunc > v", SelectorError, "function name that cannot be resolved"),
              ("f > #nometa", SelectorError, "undocumented meta-variable"),
              ("notfn > v", TypeError, "object that is not a function"),
-             ("f(zz) > v", SelectorError, "context variable that occurs nowhere")]
+             ("f(zz) > v", SelectorError, "context variable that occurs nowhere"),
+             ("K.nope > v", SelectorError, "attribute path whose last component cannot be resolved"),
+             ("f > K.nope > v", SelectorError, "attribute path that cannot be resolved, inside a call path"),
+             ("K.nope.deeper > v", SelectorError, "attribute path that cannot be resolved")]
     # names that only LOOK like the documented meta-variables
     for h in ("#enter", "#exit", "#value", "#error", "#yield", "#receive"):
         for suffix in ("s", "_", "2", "ed", "_v"):
